@@ -202,6 +202,41 @@ def resume_offset_rule(res, fx, rule='RESUME-OFFSET', file_re=r'^(iogateway|data
         raise AnalysisBroken('%s: %d resume-style transfers found, expected at least %d' % (rule, n, floor))
 
 
+def stale_cursor_rule(res, fx, rule='STALE-CURSOR'):
+    """C gateways keep their cursors as pointers into a buffer that is compacted with memmove: a local pointer computed from the cursor fields is dead once a cursor field is reassigned"""
+    res.rule(rule, 'in the C gateways a local pointer computed from the gateway\'s cursor fields (gw->_firstValid…, gw->_numValid…) is not used after one of those fields has been reassigned '
+                   '(buffer compaction) without being recomputed', floor=2)
+    n = 0
+    for f in sorted((f for f in fx.funcs.values() if f.full and re.search(r'^lang/c/.*Gateway\.c$', f.file)), key=lambda f: (f.file, f.line)):
+        for v in f.walk():
+            if v['k'] != 'VarDecl' or not v['ch'] or not v.type().rstrip().endswith('*'):
+                continue
+            flds = set((P_canon(x['ch'][0]) if x['ch'] else '', x.get('n')) for x in v['ch'][0].walk() if x['k'] == 'MemberExpr' and x.get('dk') == 'Field' and x.get('n', '').startswith('_'))
+            if not flds:
+                continue
+            n += 1
+            vp = P.pos_of(f, v)
+            bad = None
+            for a in f.walk():
+                if a['k'] in ('BinaryOperator', 'CompoundAssignOperator') and a.get('op') in A.ASSIGN_OPS:
+                    l = A.strip_casts(a['ch'][0])
+                    if l['k'] == 'MemberExpr' and ((P_canon(l['ch'][0]) if l['ch'] else '', l.get('n')) in flds):
+                        ap = P.pos_of(f, a)
+                        if not (vp and ap and ((vp[0] == ap[0] and vp[1] < ap[1]) or C.can_reach(f, vp, set([ap])))):
+                            continue
+                        for u in f.walk():
+                            if u['k'] == 'DeclRefExpr' and u.get('d') == v['d']:
+                                up = P.pos_of(f, u)
+                                if up and ((ap[0] == up[0] and ap[1] < up[1]) or (ap[0] != up[0] and C.can_reach(f, ap, set([up]), avoid_points=set([vp])))) and not any(x is a for x in u.ancestors()):
+                                    bad = (a, u)
+            res.ob(rule, f.where(v), '%s: `%s` is not used after a cursor field it was computed from is reassigned' % (f.q, v.get('n')), bad is None, function=f.q, key='%s|%s|%s' % (rule, f.q, v.get('n')),
+                   message='%s: `%s` (line %s) was computed from the gateway\'s cursor fields, `%s` (line %s) moves the cursor, and `%s` is used afterwards (line %s) without being recomputed: after '
+                           'the buffer is compacted the pointer still refers to the old position, so the next Message is built in the wrong place (and can extend past the buffer)'
+                           % (f.q, v.get('n'), v.get('l'), bad[0].text(50) if bad else '', bad[0].get('l') if bad else '', v.get('n'), bad[1].get('l') if bad else ''))
+    if n < 2:
+        raise AnalysisBroken('%s: %d cursor-derived local pointers found in the C gateways' % (rule, n))
+
+
 def recv_capacity_rule(res, fx, rule='RECV-CAPACITY'):
     """The stream receiver keeps its scratch buffer only if header + body fit into it: ByteBuffer::TruncateToLength(n) never grows a buffer, so a guard that forgets a term of n
     lets the gateway go on with a buffer that is too small and the frame is cut short."""
@@ -494,6 +529,7 @@ def run(res, tier):
         v = rets[0]['ch'][0].get('v') if rets and rets[0]['ch'] else None
         res.ob('FRAME', hs[0].where(), 'MessageIOGateway::GetHeaderSize() == 8', v == 8, how=str(v), function=hs[0].q, key='FRAME|GetHeaderSize', message='GetHeaderSize() is %s, the frame is two 32-bit words' % v)
     resume_offset_rule(res, fx)
+    stale_cursor_rule(res, fx)
     stream_carry_rule(res, fx)
     recv_capacity_rule(res, fx)
     codec_step_rule(res, fx)
